@@ -1,4 +1,5 @@
 import DoitModel.Proofs.C19Walk
+import DoitModel.Proofs.C19Trace
 /-! # C19: consequences of `Inv19` + the counting invariant `Inv3`: exactly one final report, matching `run_status` -/
 namespace DoitModel.Report
 open DoitModel.Run
@@ -57,11 +58,17 @@ theorem one_final_report {inp : RunInput} {s : Sys} (h : Inv19 inp s) (h2 : Inv2
       obtain ⟨k, hk⟩ := h.fl n hst
       exact ⟨_, filter_singleton hc hk (by simp [Ev.isTerminalOf]), ⟨k, rfl⟩⟩
 
-/-- what `repOrd` says about an `execute_task` report inside a trace (newest first) -/
-theorem repOrd_split {a b : Bool} {f : Name → Bool} {pre post : List Ev} {e : Ev}
-    (h : repOrd a b f (pre ++ e :: post) = true) : repOK a b f e post = true := by
-  induction pre with
-  | nil => simp only [List.nil_append, repOrd, Bool.and_eq_true] at h; exact h.1
-  | cons x pre ih => simp only [List.cons_append, repOrd, Bool.and_eq_true] at h; exact ih h.2
+/-- when no task is in the state `run` (selected / executing) every announced task has its final report -/
+theorem all_reported {inp : RunInput} {s : Sys} (h : Inv19 inp s) (hp : inp.runner ≠ .process)
+    (hrun : ∀ n, stOf s n ≠ .run) (n : Name) (hx : s.events.any (Ev.isExecOf n) = true) :
+    s.events.any (Ev.isTerminalOf n) = true := by
+  obtain ⟨e, he, hpe⟩ := List.any_eq_true.mp hx
+  have h1 : 0 < s.events.countP (Ev.isExecOf n) := List.countP_pos_iff.mpr ⟨e, he, hpe⟩
+  have h2 := h.ex n
+  simp only [hp, if_false] at h2
+  have h3 : cStart s n ≥ 1 := by unfold cExec at h2; omega
+  rcases h.st n h3 with a | a
+  · exact absurd a (hrun n)
+  · exact any_true_of_countP a
 
 end DoitModel.Report
